@@ -763,7 +763,7 @@ int process_patch(const Options& options)
                 if (tmp_out_file.size() == 0) {
                     // NOTE: only a patch which was applied removes the file. If it was skipped or some of it failed to apply
                     //       the result is written as that of any other patch (it may be what is left by the hunks which did
-                    //       apply), unless there is no file at all: then there is nothing to be written either.
+                    //       apply), unless there was no file to begin with: then there is nothing to be written either.
                     const bool was_applied = !result.was_skipped && result.failed_hunks == 0;
                     if (was_applied) {
                         if (!options.dry_run) {
@@ -773,7 +773,7 @@ int process_patch(const Options& options)
                                 remove_file_and_empty_parent_folders(output_file);
                         }
                         write_to_file = false;
-                    } else if (!filesystem::exists(output_file)) {
+                    } else if (!filesystem::exists(file_to_patch)) {
                         write_to_file = false;
                     }
                 } else if (patch.new_file_path == "/dev/null") {
